@@ -546,4 +546,6 @@ package data
 //@   ensures [C02.reshape-size-check] iff(err.isnil, iprod(newShape, len(newShape)) == iprod(nd.Dims, len(nd.Dims)))
 //@   ensures [C02.reshape-aliases-iff-contiguous] implies(err.isnil && contigc(nd.Dims, nd.OriginalDims, nd.Step, nd.Offset, len(nd.Dims)), as(r, nd{t}).Impl.id == nd.Impl.id)
 //@   ensures [C02.reshape-header] implies(err.isnil, as(r, nd{t}).Dims == newShape && len(as(r, nd{t}).OffsetStep) >= 1)
+//@   ensures [C02.reshape-strides] implies(err.isnil && iprod(newShape, len(newShape)) > 1, as(r, nd{t}).Start == 0 && len(as(r, nd{t}).Impl) == iprod(newShape, len(newShape)) && forall(k, 0, len(newShape), as(r, nd{t}).OffsetStep[k] == pfrom(newShape, k+1, len(newShape))))
+//@   ensures [C02.reshape-addresses] implies(err.isnil && iprod(newShape, len(newShape)) > 1, forall(j, 0, iprod(newShape, len(newShape)), rmaddr(newShape, as(r, nd{t}).OffsetStep, j, len(newShape), len(newShape)) == j))
 //@   ensures [C02.reshape-rowmajor] implies(err.isnil && iprod(newShape, len(newShape)) > 1, forall(j, 0, iprod(newShape, len(newShape)), as(r, nd{t}).Impl[as(r, nd{t}).Start + rmaddr(newShape, as(r, nd{t}).OffsetStep, j, len(newShape), len(newShape))] == nd.Impl[nd.Start + rmaddr(nd.Dims, nd.OffsetStep, j, len(nd.Dims), len(nd.Dims))]))
